@@ -8,6 +8,7 @@ circle, and each returned t1 is paired with the t2 it was computed from; Path.in
 parameter with its own path/segment and maps through t2T.
 Not decided: accuracy of subdivision and of the arc solvers (1e-5 / 1e-3 bounds)."""
 import ast
+from fractions import Fraction as Fr
 from svtstatic import poly
 from svtstatic.values import ExtRef
 from .common import *
@@ -299,3 +300,103 @@ def run(ctx):
                 return False, 'T2 is not path2.t2T(seg2, t2)'
         return True, ''
     ob('R11.4').run(fp, 'Path.intersect tuple layout on 2x2 segments', th4, judge4, allowed_raises=('AssertionError',))
+
+    # ---------------------------------------------------------------- R11.7 subdivision solver invariants
+    ctx.rule('R11.7', 'bezier_intersections: every sub-curve examined is the dyadic piece of its own input curve; each pair carries the mid '
+                      'parameters of its two pieces; a pair is reported only on paths that know BOTH pieces\' boxes to be smaller than tol_deC', 4)
+    fbi = mdl.func('bezier.bezier_intersections')
+    B1, B2 = cpoints(4, 'P'), cpoints(3, 'Q')
+    TOLD = Rat.sym('told')
+
+    def decasteljau(P, lo, hi):
+        """control points of the piece [lo, hi] of the curve with control points P (exact)"""
+        def split(P, t):
+            left, right, cur = [P[0]], [P[-1]], list(P)
+            while len(cur) > 1:
+                cur = [cur[i] + (cur[i + 1] - cur[i]) * t for i in range(len(cur) - 1)]
+                left.append(cur[0])
+                right.insert(0, cur[-1])
+            return left, right
+        out = list(P)
+        if hi != 1:
+            out = split(out, Rat.const(hi))[0]
+        if lo != 0:
+            out = split(out, Rat.const(Fr(lo) / Fr(hi)))[1]
+        return out
+    pieces = {}
+    for tag, P in (('B1', B1), ('B2', B2)):
+        for lvl in range(3):
+            n = 2 ** lvl
+            for i in range(n):
+                lo, hi = Fr(i, n), Fr(i + 1, n)
+                pieces[tuple(to_rat(x).key() for x in decasteljau(P, lo, hi))] = (tag, lo, hi)
+
+    def area_of(tag, lo, hi):
+        nm = '%s_%s_%s' % (tag, str(lo).replace('/', 'o'), str(hi).replace('/', 'o'))
+        return nm, (Rat.sym('xmax_' + nm) - Rat.sym('xmin_' + nm)) * (Rat.sym('ymax_' + nm) - Rat.sym('ymin_' + nm))
+
+    for j in range(4):
+        log = {'unknown': [], 'tests': []}
+
+        def bbox_hook(it, a, k, log=log):
+            key = tuple(to_rat(x).key() for x in it.iterate(a[0]))
+            pc = pieces.get(key)
+            if pc is None:
+                log['unknown'].append(key)
+                pc = ('UNK%d' % len(log['unknown']), Fr(0), Fr(1))
+            nm = area_of(*pc)[0]
+            return tuple(Rat.sym(s + nm) for s in ('xmin_', 'xmax_', 'ymin_', 'ymax_'))
+
+        def bi_hook(it, a, k, log=log, j=j):
+            nms = []
+            for box in a[:2]:
+                nms.append(to_rat(it.iterate(box)[0]).key().split('xmin_')[-1])
+            log['tests'].append(tuple(nms))
+            n = len(log['tests'])
+            return n == 1 or n == 2 + j        # the root pair and exactly the j-th child pair overlap
+
+        def th7(it, log=log):
+            log['unknown'][:] = []
+            log['tests'][:] = []
+            r = it.call(it.closure_of('bezier.bezier_intersections'), [list(B1), list(B2), Rat.sym('LL')], {'tol': Rat.sym('tol'), 'tol_deC': TOLD})
+            return list(r), list(log['unknown']), list(log['tests']), it
+
+        def judge7(v, j=j):
+            r, unknown, tests, it = v
+            if unknown:
+                return False, 'a sub-curve is examined that is not a dyadic piece [i/2^k, (i+1)/2^k] of an input curve (wrong halving)'
+            if not tests:
+                return None, 'boxes_intersect / bezier_bounding_box were not called (solver restructured)'
+            byname = {}
+            for (tag, lo, hi) in pieces.values():
+                byname[area_of(tag, lo, hi)[0]] = (tag, lo, hi)
+            for n, (a, b) in enumerate(tests):
+                pa, pb = byname.get(a), byname.get(b)
+                if pa is None or pb is None or {pa[0], pb[0]} != {'B1', 'B2'}:
+                    return False, 'box test %d does not compare a piece of the first curve with a piece of the second' % n
+            if len(r) > 1:
+                return False, 'one overlapping pair reported %d times' % len(r)
+            for t1, t2 in r:
+                t1, t2 = to_rat(t1), to_rat(t2)
+                # which tested pair has these mid parameters?
+                hit = None
+                for a, b in tests:
+                    pa, pb = byname[a], byname[b]
+                    if pa[0] == 'B2':
+                        pa, pb = pb, pa
+                    if t1.equals(Rat.const((pa[1] + pa[2]) / 2)) and t2.equals(Rat.const((pb[1] + pb[2]) / 2)):
+                        hit = (pa, pb)
+                if hit is None:
+                    return False, 'reported (%s, %s) are not the mid parameters of a tested pair of pieces (t1 on the first curve, t2 on the second)' % (short(t1, 20), short(t2, 20))
+                for pc in hit:
+                    sg = path_sign(it, area_of(*pc)[1] - TOLD)
+                    if sg != frozenset('-'):
+                        return False, ('a crossing is reported without knowing that the box of the piece [%s, %s] of %s is smaller than tol_deC: '
+                                       'its parameter is only known to +-%s' % (pc[1], pc[2], 'the first curve' if pc[0] == 'B1' else 'the second curve', (pc[2] - pc[1]) / 2))
+            return True, ''
+        ob('R11.7').run(fbi, 'subdivision with the root pair and child pair %d overlapping' % j, th7, judge7, allowed_raises=('Exception',),
+                        opts={'call_hooks': {'bezier.bezier_bounding_box': bbox_hook, 'bezier.boxes_intersect': bi_hook,
+                                             'bezier.bezier_point': lambda it, a, k: Rat.csym('PT')},
+                              'ext_hooks': {'builtins.int': lambda it, a, k: 4, 'math.ceil': lambda it, a, k: Rat.sym('CEIL'),
+                                            'math.log': lambda it, a, k: Rat.sym('LOG')},
+                              'presign': [(TOLD, '+'), (Rat.sym('tol'), '+')]})
